@@ -1291,7 +1291,10 @@ class EigenvalueCorrectedShampooPreconditionerList(
                     try:
                         computed_eigenvectors = matrix_eigenvectors(
                             A=factor_matrix,
-                            eigenvectors_estimate=factor_matrix_eigenvectors,
+                            # The stored eigenvectors have the block's dtype, the factor matrix factor_matrix_dtype.
+                            eigenvectors_estimate=factor_matrix_eigenvectors.to(
+                                dtype=factor_matrix.dtype
+                            ),
                             eigenvector_computation_config=eigenvector_computation_config,
                             is_diagonal=bool(is_factor_matrix_diagonal),
                         )
